@@ -1,6 +1,7 @@
 package main
 
 import (
+	"hash/fnv"
 	"crypto/sha256"
 	"encoding/hex"
 	"encoding/json"
@@ -114,6 +115,14 @@ func discharge(vcs []*VC, opt runOpts) {
 				}
 				q := j.vc.query(j.o)
 				var r solveResult
+				// thorough tier: every eighth obligation (by name hash) is decided by all back ends independently and
+				// their answers compared; the others are decided as in the quick tier, with the larger budget, no cache
+				all := false
+				if opt.all {
+					h := fnv.New32a()
+					h.Write([]byte(j.o.Name))
+					all = h.Sum32()%8 == 0
+				}
 				if opt.cacheDir != "" && j.o.Expect == "" && !opt.all {
 					if cr, ok := cacheLookup(opt.cacheDir, q); ok {
 						j.o.Result = &cr
@@ -121,7 +130,7 @@ func discharge(vcs []*VC, opt runOpts) {
 					}
 				}
 				staged := false
-				if !opt.all && j.o.Expect == "" && len(j.vc.facts) > 150 {
+				if !all && j.o.Expect == "" && len(j.vc.facts) > 150 {
 					// stage 0: premise selection (sound: assumptions are only dropped)
 					hit := false
 					for _, strict := range []int{1, 3} {
@@ -145,14 +154,14 @@ func discharge(vcs []*VC, opt runOpts) {
 						continue
 					}
 				}
-				if !staged && !opt.all && j.o.Expect != "fail" {
+				if !staged && !all && j.o.Expect != "fail" {
 					// stage 1: the back end that decides most obligations, alone and briefly;
 					// stage 2 (below) is the full race
 					r = raceSolveOn(opt.scratch, j.o.Name, q, 2, false, backends[:1])
 					staged = r.Answer == "unsat"
 				}
 				if !staged {
-					r = raceSolve(opt.scratch, j.o.Name, q, t, opt.all && j.o.Expect != "fail")
+					r = raceSolve(opt.scratch, j.o.Name, q, t, all && j.o.Expect != "fail")
 				}
 				j.o.Result = &r
 				if opt.cacheDir != "" && r.Answer == "unsat" && j.o.Expect == "" {
